@@ -1,2 +1,244 @@
-use crate::harness::Gen;
-pub fn gens() -> Vec<Gen> { vec![] }
+//! C08: ill-formed issuer-signed structures are rejected as the specification requires.
+
+use crate::gen_c07::disclosure_shapes;
+use crate::harness::{fail, Gen, Verdict};
+use crate::oracle::process;
+use crate::pipeline::{build_crafted, sign};
+use crate::rng::Rng;
+use crate::sut::{self, Out};
+use crate::util::{jstr, short, Parts, FAR_EXP, J};
+use serde_json::json;
+
+pub fn gens() -> Vec<Gen> {
+    vec![
+        Gen { name: "c08.deviations", prop: "C08", tags: &["dup", "digest", "members", "obj", "arr", "placeholder", "name", "arity", "alg", "unpack", "src/verifier.rs"], cases: cases_deviations, check },
+        Gen { name: "c08.shapes", prop: "C08", tags: &["shape", "disclosure"], cases: cases_shapes, check },
+        Gen { name: "c08.random", prop: "C08", tags: &["random"], cases: cases_random, check },
+        Gen { name: "c08.sd_alg_member", prop: "C08", tags: &["sd_alg_member", "_sd_alg"], cases: cases_sd_alg_member, check },
+    ]
+}
+
+fn base(extra: J) -> J {
+    let mut m = json!({"iss": "https://issuer.example/i", "exp": FAR_EXP, "vis": "v"});
+    for (k, v) in extra.as_object().unwrap() {
+        m[k] = v.clone();
+    }
+    m
+}
+
+fn case(n: usize, payload: J, disclosures: Vec<J>, present: Option<Vec<usize>>) -> J {
+    let key = ["ES256", "EdDSA", "HS256"][n % 3];
+    json!({"payload": payload, "disclosures": disclosures, "present": present, "format": if n % 2 == 0 { "compact" } else { "json" }, "key": key})
+}
+
+fn cases_deviations(_rng: &mut Rng, sink: &mut dyn FnMut(J) -> bool) {
+    let d_n0 = json!(["s0", "n0", "v0"]);
+    let d_n1 = json!(["s1", "n1", {"deep": true}]);
+    let d_el = json!(["s2", "el"]);
+    let d_el2 = json!(["s3", {"k": "el2"}]);
+    let mut list: Vec<(J, Vec<J>, Option<Vec<usize>>)> = Vec::new();
+    // ---- well-formed controls
+    list.push((base(json!({"_sd": ["#0", "#1", "decoyA"], "_sd_alg": "sha-256", "o": {"p": 1, "_sd": ["decoyB"]}, "arr": [{"...": "#2"}, "plain", {"...": "decoyC"}, [{"...": "#3"}]]})), vec![d_n0.clone(), d_n1.clone(), d_el.clone(), d_el2.clone()], None));
+    list.push((base(json!({"_sd": ["#0"]})), vec![json!(["s", "o", {"_sd": ["#1"], "q": [{"...": "#2"}]}]), d_n0.clone(), d_el.clone()], None));
+    list.push((base(json!({"_sd": ["#0"]})), vec![json!(["s", "o", {"_sd": ["#1"], "q": [{"...": "#2"}]}]), d_n0.clone(), d_el.clone()], Some(vec![1, 2])));
+    list.push((base(json!({"_sd": ["#0"], "e": {}, "f": [], "_sd_alg": "sha-256"})), vec![json!(["s", "n", null])], None));
+    // ---- duplicate digests
+    list.push((base(json!({"_sd": ["#0", "#0"]})), vec![d_n0.clone()], None));
+    list.push((base(json!({"_sd": ["#0"], "o": {"_sd": ["#0"]}})), vec![d_n0.clone()], None));
+    list.push((base(json!({"o": {"_sd": ["#0"]}, "p": {"_sd": ["#0"]}})), vec![d_n0.clone()], None));
+    list.push((base(json!({"_sd": ["#0"], "arr": [{"...": "#0"}]})), vec![d_n0.clone()], None));
+    list.push((base(json!({"_sd": ["#0"], "arr": [{"...": "#0"}]})), vec![d_el.clone()], None));
+    list.push((base(json!({"arr": [{"...": "#0"}, {"...": "#0"}]})), vec![d_el.clone()], None));
+    list.push((base(json!({"arr": [{"...": "#0"}], "brr": [[{"...": "#0"}]]})), vec![d_el.clone()], None));
+    list.push((base(json!({"_sd": ["decoy", "decoy"]})), vec![d_n0.clone()], None));
+    list.push((base(json!({"_sd": ["decoy"], "o": {"_sd": ["decoy"]}})), vec![], None));
+    list.push((base(json!({"_sd": ["decoy"], "arr": [{"...": "decoy"}]})), vec![], None));
+    list.push((base(json!({"arr": [{"...": "decoy"}, 1, {"...": "decoy"}]})), vec![], None));
+    // inside disclosed values
+    list.push((base(json!({"_sd": ["#0", "#1"]})), vec![json!(["s", "o", {"_sd": ["#1"]}]), d_n0.clone()], None));
+    list.push((base(json!({"_sd": ["#0"]})), vec![json!(["s", "o", {"_sd": ["#1", "#1"]}]), d_n0.clone()], None));
+    list.push((base(json!({"_sd": ["#0"]})), vec![json!(["s", "o", {"a": {"_sd": ["#1"]}, "b": {"_sd": ["#1"]}}]), d_n0.clone()], None));
+    list.push((base(json!({"_sd": ["#0"], "arr": [{"...": "#1"}]})), vec![json!(["s", "o", [{"...": "#1"}]]), d_el.clone()], None));
+    list.push((base(json!({"_sd": ["#0", "decoyX"]})), vec![json!(["s", "o", {"_sd": ["decoyX"]}])], None));
+    list.push((base(json!({"arr": [{"...": "#0"}, {"...": "#1"}]})), vec![json!(["s", {"_sd": ["#2"]}]), json!(["s", {"_sd": ["#2"]}]), d_n0.clone()], None));
+    // a disclosure whose value references its own parent's digest level (cycle-free duplicate)
+    list.push((base(json!({"_sd": ["#0", "#1"]})), vec![json!(["s", "a", {"_sd": ["#2"]}]), json!(["s", "b", {"_sd": ["#2"]}]), d_n0.clone()], None));
+    // ---- `_sd` before / after a plain member of the same name as a disclosed one
+    list.push((json!({"_sd": ["#0"], "n0": "plain", "iss": "i", "exp": FAR_EXP}), vec![d_n0.clone()], None));
+    list.push((json!({"n0": "plain", "_sd": ["#0"], "iss": "i", "exp": FAR_EXP}), vec![d_n0.clone()], None));
+    list.push((json!({"iss": "i", "exp": FAR_EXP, "n0": "plain", "_sd": ["#0"]}), vec![d_n0.clone()], None));
+    list.push((base(json!({"o": {"_sd": ["#0"], "n0": {"x": 1}}})), vec![d_n0.clone()], None));
+    list.push((base(json!({"o": {"n0": null, "_sd": ["#0"]}})), vec![d_n0.clone()], None));
+    list.push((base(json!({"arr": [{"_sd": ["#0"], "n0": 1}]})), vec![d_n0.clone()], None));
+    list.push((base(json!({"_sd": ["#0"]})), vec![json!(["s", "o", {"_sd": ["#1"], "n0": "plain"}]), d_n0.clone()], None));
+    list.push((base(json!({"_sd": ["#0"]})), vec![json!(["s", "o", {"n0": "plain", "_sd": ["#1"]}]), d_n0.clone()], None));
+    list.push((base(json!({"arr": [{"...": "#0"}]})), vec![json!(["s", {"_sd": ["#1"], "n0": "plain"}]), d_n0.clone()], None));
+    list.push((base(json!({"_sd": ["#0", "#1"]})), vec![d_n0.clone(), json!(["other-salt", "n0", "second"])], None));
+    list.push((base(json!({"_sd": ["#1", "#0"]})), vec![d_n0.clone(), json!(["other-salt", "n0", "v0"])], None));
+    // colliding with registered / always visible claims
+    for name in ["iss", "exp", "vis"] {
+        list.push((base(json!({"_sd": ["#0"], "_sd_alg": "sha-256"})), vec![json!(["s", name, "forged"])], None));
+    }
+    // ---- reserved names
+    for name in ["_sd", "..."] {
+        list.push((base(json!({"_sd": ["#0"]})), vec![json!(["s", name, "x"])], None));
+        list.push((base(json!({"_sd": ["#0"]})), vec![json!(["s", name, ["x"]])], None));
+        list.push((base(json!({"o": {"_sd": ["#0"]}})), vec![json!(["s", name, "x"])], None));
+        list.push((base(json!({"_sd": ["#0"]})), vec![json!(["s", "o", {"_sd": ["#1"]}]), json!(["s", name, "x"])], None));
+        list.push((base(json!({"arr": [{"...": "#0"}]})), vec![json!(["s", {"_sd": ["#1"]}]), json!(["s", name, "x"])], None));
+    }
+    // ---- placeholder with extra members (disclosed and undisclosed)
+    for ph in [json!({"...": "#0", "x": 1}), json!({"x": 1, "...": "#0"}), json!({"...": "#0", "_sd": ["decoy"]}), json!({"...": "#0", "...2": "y"}), json!({"...": "nomatch", "x": 1}), json!({"...": "nomatch", "note": "n", "_sd": []})] {
+        list.push((base(json!({ "arr": [ph.clone(), "z"] })), vec![d_el.clone()], None));
+        list.push((base(json!({ "arr": [[ph.clone()]] })), vec![d_el.clone()], None));
+        list.push((base(json!({"_sd": ["#1"]})), vec![d_el.clone(), json!(["s", "q", [ph.clone()]])], None));
+        list.push((base(json!({"arr": [{"...": "#1"}]})), vec![d_el.clone(), json!(["s", [ph.clone()]])], None));
+    }
+    // ---- non-string entries
+    for e in [json!(5), json!(null), json!(true), json!(["#0"]), json!({"a": 1}), json!({"...": "#0"}), json!(1.5)] {
+        list.push((base(json!({"_sd": [e.clone()]})), vec![d_n0.clone()], None));
+        list.push((base(json!({"_sd": ["#0", e.clone()]})), vec![d_n0.clone()], None));
+        list.push((base(json!({"o": {"_sd": [e.clone(), "#0"]}})), vec![d_n0.clone()], None));
+        list.push((base(json!({"arr": [{"...": e.clone()}]})), vec![d_el.clone()], None));
+        list.push((base(json!({"_sd": ["#0"]})), vec![json!(["s", "o", {"_sd": [e.clone()]}])], None));
+        list.push((base(json!({"_sd": ["#0"]})), vec![json!(["s", "o", [{"...": e.clone()}]])], None));
+    }
+    // `_sd` that is not an array at all (specification silent: stricter allowed, never claims other than the oracle's)
+    for e in [json!("str"), json!(5), json!(null), json!({}), json!({"_sd": ["#0"]}), json!(true)] {
+        list.push((base(json!({"_sd": e.clone()})), vec![d_n0.clone()], None));
+        list.push((base(json!({"o": {"_sd": e.clone(), "k": 1}})), vec![d_n0.clone()], None));
+    }
+    // ---- arity and container kind
+    for arr in [json!([]), json!(["s"]), json!(["s", "n"]), json!(["s", "n", "v"]), json!(["s", "n", "v", "w"]), json!(["s", "n", "v", "w", "x"]), json!(["s", 5, "v"]), json!(["s", null, "v"]), json!(["s", ["n"], "v"]), json!(["s", {"n": 1}, "v"]), json!(["s", true, "v"]), json!({"0": "s", "1": "n", "2": "v"}), json!("str"), json!(null), json!(7)] {
+        list.push((base(json!({"_sd": ["#0"]})), vec![arr.clone()], None));
+        list.push((base(json!({"o": {"_sd": ["#0"]}})), vec![arr.clone()], None));
+        list.push((base(json!({"arr": [{"...": "#0"}]})), vec![arr.clone()], None));
+        list.push((base(json!({"_sd": ["#0"]})), vec![json!(["s", "o", {"_sd": ["#1"]}]), arr.clone()], None));
+        list.push((base(json!({"_sd": ["#0"]})), vec![json!(["s", "o", [{"...": "#1"}]]), arr.clone()], None));
+    }
+    // ---- unsupported _sd_alg
+    for alg in [json!("sha-512"), json!("SHA-256"), json!("sha256"), json!("md5"), json!(""), json!(5), json!(null), json!(["sha-256"]), json!({"alg": "sha-256"}), json!("sha-384"), json!("sha-256 ")] {
+        list.push((base(json!({"_sd": ["#0"], "_sd_alg": alg.clone()})), vec![d_n0.clone()], None));
+        list.push((base(json!({ "_sd_alg": alg.clone() })), vec![], None));
+    }
+    for (n, (p, d, present)) in list.into_iter().enumerate() {
+        if !sink(case(n, p, d, present)) {
+            return;
+        }
+    }
+}
+
+/// `_sd_alg` as a disclosed claim name / as a member of nested objects.
+fn cases_sd_alg_member(_rng: &mut Rng, sink: &mut dyn FnMut(J) -> bool) {
+    let list: Vec<(J, Vec<J>)> = vec![
+        // disclosed name collides with the top-level _sd_alg claim
+        (base(json!({"_sd": ["#0"], "_sd_alg": "sha-256"})), vec![json!(["s", "_sd_alg", "forged"])]),
+        (json!({"_sd_alg": "sha-256", "_sd": ["#0"], "iss": "i", "exp": FAR_EXP}), vec![json!(["s", "_sd_alg", "sha-256"])]),
+        // no _sd_alg claim in the payload: the disclosed one is inserted, then the claim is removed
+        (base(json!({"_sd": ["#0"]})), vec![json!(["s", "_sd_alg", "forged"])]),
+        // nested members named _sd_alg are ordinary claims
+        (base(json!({"o": {"_sd_alg": "x", "k": 1}})), vec![]),
+        (base(json!({"arr": [{"_sd_alg": 1}]})), vec![]),
+        (base(json!({"_sd": ["#0"]})), vec![json!(["s", "o", {"_sd_alg": "x", "k": 1}])]),
+        (base(json!({"o": {"_sd": ["#0"]}})), vec![json!(["s", "_sd_alg", "nested-disclosed"])]),
+        (base(json!({"o": {"_sd": ["#0"], "_sd_alg": "x"}})), vec![json!(["s", "_sd_alg", "nested-collision"])]),
+    ];
+    for (n, (p, d)) in list.into_iter().enumerate() {
+        if !sink(case(n, p, d, None)) {
+            return;
+        }
+    }
+}
+
+fn cases_shapes(_rng: &mut Rng, sink: &mut dyn FnMut(J) -> bool) {
+    let mut n = 0usize;
+    for d in disclosure_shapes() {
+        let positions: Vec<(J, Vec<J>)> = vec![
+            (base(json!({"_sd": ["#0"]})), vec![d.clone()]),
+            (base(json!({"o": {"_sd": ["#0"], "p": 1}})), vec![d.clone()]),
+            (base(json!({"arr": [{"...": "#0"}, "x"]})), vec![d.clone()]),
+            (base(json!({"arr": [[{"...": "#0"}]]})), vec![d.clone()]),
+            (base(json!({"_sd": ["#0"]})), vec![json!(["s0", "o", {"_sd": ["#1"]}]), d.clone()]),
+            (base(json!({"_sd": ["#0"]})), vec![json!(["s0", "arr", [{"...": "#1"}, 1]]), d.clone()]),
+            (base(json!({"arr": [{"...": "#0"}]})), vec![json!(["s0", {"_sd": ["#1"]}]), d.clone()]),
+            (base(json!({"arr": [{"...": "#0"}]})), vec![json!(["s0", [{"...": "#1"}]]), d.clone()]),
+            (base(json!({"_sd": ["nomatch"]})), vec![d.clone()]),
+            (base(json!({"_sd": ["#0"], "arr": [{"...": "#1"}]})), vec![d.clone(), d.clone()]),
+        ];
+        for (p, ds) in positions {
+            n += 1;
+            if !sink(case(n, p, ds, None)) {
+                return;
+            }
+        }
+    }
+}
+
+fn cases_random(rng: &mut Rng, sink: &mut dyn FnMut(J) -> bool) {
+    let shapes = disclosure_shapes();
+    let names = ["n0", "n1", "vis", "o", "arr", "_sd", "...", "p"];
+    let mut n = 0usize;
+    loop {
+        n += 1;
+        let nd = 1 + rng.below(5);
+        let mut ds: Vec<J> = Vec::new();
+        for k in 0..nd {
+            let name = *rng.pick(&names);
+            let later = |rng: &mut Rng| if k + 1 < nd { format!("#{}", k + 1 + rng.below(nd - k - 1)) } else { "decoy".to_string() };
+            let d = match rng.below(8) {
+                0 => rng.pick(&shapes).clone(),
+                1 => json!(["s", name, {"_sd": [later(rng)], "p": 1}]),
+                2 => json!(["s", name, [{"...": later(rng)}, 2]]),
+                3 => json!(["s", {"_sd": [later(rng)], "q": 1}]),
+                4 => json!(["s", [{"...": later(rng)}, 2]]),
+                5 => json!(["s", name, format!("v{k}")]),
+                6 => json!(["s", format!("el{k}")]),
+                _ => json!(["s", name, {"n0": 1, "_sd": [later(rng), later(rng)]}]),
+            };
+            ds.push(d);
+        }
+        let r = |rng: &mut Rng| if rng.chance(1, 6) { "decoy".to_string() } else { format!("#{}", rng.below(nd)) };
+        let payload = json!({
+            "iss": "i", "exp": FAR_EXP, "vis": 1,
+            "_sd": [r(rng), r(rng)],
+            "o": {"_sd": [r(rng)], "p": {"_sd": if rng.coin() { json!([r(rng)]) } else { json!(7) }}},
+            "arr": [{"...": r(rng)}, if rng.coin() { json!({"...": r(rng)}) } else { json!([{"...": r(rng)}]) }, "x"]
+        });
+        let present: Option<Vec<usize>> = if rng.coin() { None } else { Some((0..nd).filter(|_| rng.chance(3, 4)).collect()) };
+        if !sink(case(n, payload, ds, present)) {
+            return;
+        }
+    }
+}
+
+pub fn check(case: &J) -> Verdict {
+    let templates: Vec<J> = case["disclosures"].as_array().cloned().unwrap_or_default();
+    let (payload, mut ds) = build_crafted(&case["payload"], &templates);
+    if let Some(keep) = case["present"].as_array() {
+        ds = keep.iter().filter_map(|i| ds.get(i.as_u64()? as usize).cloned()).collect();
+    }
+    let format = case["format"].as_str().unwrap_or("compact");
+    if format == "compact" && ds.iter().any(|d| d.contains('~')) {
+        return Verdict::Trivial;
+    }
+    let key = case["key"].as_str().unwrap_or("ES256");
+    let Some(pm) = payload.as_object() else { return Verdict::Trivial };
+    let oracle = process(pm, &ds);
+    let text = Parts { jwt: sign(&payload, key), disclosures: ds.clone(), kb: None }.serialize(format);
+    let decoded: Vec<J> = ds.iter().map(|d| crate::util::decode_disclosure(d).unwrap_or(json!({"$raw": d}))).collect();
+    let ctx = format!("payload {} with disclosures {}", short(&jstr(&payload), 500), short(&jstr(&json!(decoded)), 400));
+    match sut::verify(&text, key, None, format) {
+        Out::Panic(m) => fail(format!("PANIC: {m} on {ctx}"), "an error or the specification's result"),
+        Out::Err(_) => Verdict::Pass,
+        Out::Ok(v) => match oracle {
+            Err(e) => fail(format!("ACCEPTED with claims {} ({ctx})", short(&jstr(&v), 400)), format!("rejected: {e}")),
+            Ok(w) => {
+                if v == w {
+                    Verdict::Pass
+                } else {
+                    fail(format!("verified_claims = {} ({ctx})", short(&jstr(&v), 400)), format!("an error, or exactly {}", short(&jstr(&w), 400)))
+                }
+            }
+        },
+    }
+}
